@@ -291,6 +291,8 @@ void TasmanianSparseGrid::updateGlobalGrid(int depth, TypeDepth type, const int 
                      Utils::copyArray(level_limits, getNumDimensions()));
 }
 void TasmanianSparseGrid::updateGlobalGrid(int depth, TypeDepth type, const std::vector<int> &anisotropic_weights, const std::vector<int> &level_limits){
+    if (empty()) throw std::runtime_error("ERROR: updateGlobalGrid() called, but the grid is empty");
+    if (not isGlobal()) throw std::runtime_error("ERROR: updateGlobalGrid() called, but the grid is not Global");
     updateGrid(depth, type, anisotropic_weights, level_limits);
 }
 
@@ -300,14 +302,20 @@ void TasmanianSparseGrid::updateSequenceGrid(int depth, TypeDepth type, const in
                        Utils::copyArray(level_limits, getNumDimensions()));
 }
 void TasmanianSparseGrid::updateSequenceGrid(int depth, TypeDepth type, const std::vector<int> &anisotropic_weights, const std::vector<int> &level_limits){
+    if (empty()) throw std::runtime_error("ERROR: updateSequenceGrid() called, but the grid is empty");
+    if (not isSequence()) throw std::runtime_error("ERROR: updateSequenceGrid() called, but the grid is not Sequence");
     updateGrid(depth, type, anisotropic_weights, level_limits);
 }
 
 void TasmanianSparseGrid::updateFourierGrid(int depth, TypeDepth type, const int *anisotropic_weights, const int *level_limits){
+    if (empty()) throw std::runtime_error("ERROR: updateFourierGrid() called, but the grid is empty");
+    if (not isFourier()) throw std::runtime_error("ERROR: updateFourierGrid() called, but the grid is not Fourier");
     updateGrid(depth, type, anisotropic_weights, level_limits);
 }
 void TasmanianSparseGrid::updateFourierGrid(int depth, TypeDepth type, std::vector<int> const &anisotropic_weights,
                                             std::vector<int> const &level_limits){
+    if (empty()) throw std::runtime_error("ERROR: updateFourierGrid() called, but the grid is empty");
+    if (not isFourier()) throw std::runtime_error("ERROR: updateFourierGrid() called, but the grid is not Fourier");
     updateGrid(depth, type, anisotropic_weights, level_limits);
 }
 void TasmanianSparseGrid::updateGrid(int depth, TypeDepth type, const int *anisotropic_weights, const int *level_limits){
